@@ -2,3 +2,11 @@
 import VirtioVerif.Model.Proto
 import VirtioVerif.Model.Layout
 import VirtioVerif.Props.C06
+import VirtioVerif.Model.VsockSpec
+import VirtioVerif.Model.Vsock
+import VirtioVerif.Model.VsockConn
+import VirtioVerif.Lemmas.VsockRing
+import VirtioVerif.Lemmas.VsockTable
+import VirtioVerif.Lemmas.VsockTable2
+import VirtioVerif.Props.C17
+import VirtioVerif.Props.C18
